@@ -970,7 +970,7 @@ def c05(tier):
         from . import heavy as hv_
         nh_ = 120 if tier == "quick" else 2500
         hc = [c for c in cases if c.get("accel")] if os.environ.get("VERIF_CASES") else \
-            hv_.heavy_cases(sd, nh_, tail_share=0.7)
+            (hv_.heavy_cases(sd, nh_, tail_share=0.7) + hv_.spin_cases(sd, nh_))
 
         def hruns(c):
             spin = "[]" in c["prog"]            # only the divergent tail contains an empty loop
